@@ -162,6 +162,22 @@ CLAIMED = {
             "status, so this is exploration with a TLA+-defined input space.",
             "Trusted: generalisation of file-name exclusions to feature sets; wit-parser's notion of a valid world.",
             "5 C16"),
+    "C15": ("exploration",
+            "Determinism.tla judges observations: every (input, backend, variant) unit generated by k independent processes "
+            "+ a following --check; inputs from the corpus, WorldGrammar.tla and wide many-interface worlds",
+            "k=3 (thorough 8) independent processes per unit, 1400+ units in the quick tier; names and sha256 of all files must "
+            "agree and --check against the first output must succeed. The TLA+ part is the input grammar and the (tiny) "
+            "equality judgement; the verdict is byte comparison across processes.",
+            "Trusted: independent processes really differ in hash seeds/ASLR; sha256.",
+            "5 C15"),
+    "C31": ("exploration",
+            "WorldGrammar.tla worlds + adversarial-name worlds + corpus -> real C++ generator -> g++ -std=c++20 -fsyntax-only "
+            "against the repository's helper headers",
+            "Bounded-exhaustive world grammar (quick: every third cell; thorough: 5 alternatives per cell) plus keyword / "
+            "mangling-collision worlds; the verdict is the C++ front end's.",
+            "Trusted: g++ 12 with -fpermissive and -D_GLIBCXX_USE_DEPRECATED=0 stands in for clang++ --target=wasm32 + libc++ "
+            "(pointer-width casts and a libstdc++-only name clash are not judged).",
+            "5 C31"),
 }
 
 PENDING_REASON = "check not built yet in this session (planned, see DESIGN.md section 5); not claimed until it runs"
